@@ -16,7 +16,7 @@
 (* Partial-order reduction: a thread inside a thread-private step runs     *)
 (* first (private steps commute with every step of the other threads).     *)
 (***************************************************************************)
-EXTENDS Naturals, Integers, Sequences, FiniteSets, TLC
+EXTENDS Naturals, Integers, Sequences, FiniteSets, TLC, Json
 
 CONSTANTS ThreadsC,  \* set of threads
           NLpC,      \* number of LPs
@@ -25,6 +25,7 @@ CONSTANTS ThreadsC,  \* set of threads
           Trans,     \* Trans[s+1][ty] = [ns, sends]; sends: seq of [off, delay, ty, pid] (destination = me + off); types 1..
           MaxMsg,    \* size of the message pool (ids 1..MaxMsg, recycled smallest first)
           CkptEvery, \* checkpoint interval (events)
+          RecordSched, \* TRUE: carry the order of the shared accesses as a history (for replaying behaviours in the real code)
           MaxGvt     \* number of GVT values handed out (0: no GVT, no fossil collection); a value is any safe lower bound
 
 VARIABLES msg, hist, base, ckpt, owner, rb, cpos, cheld, termT, gvtSeen, gvtCnt, gvtVals, finiLp, finiQ, votes,
@@ -36,13 +37,14 @@ VARIABLES msg, hist, base, ckpt, owner, rb, cpos, cheld, termT, gvtSeen, gvtCnt,
           crem,   \* lp -> events until the next checkpoint
           fneed,  \* lp -> a GVT arrived since the last fossil collection of the LP (fossil_is_needed)
           rseq,   \* thr -> rank -> number of messages put on the network for that rank (remote_msg_seq of gvt.h)
-          err     \* a property check of an action failed: <<property, label>>
+          err,    \* a property check of an action failed: <<property, label>>
+          sched   \* history: the shared accesses taken so far, <<thread, kind>> (only when RecordSched)
 
 TW == INSTANCE TimeWarp WITH Threads <- ThreadsC, NLp <- NLpC, Inf <- 1000000
 twvars == <<msg, hist, base, ckpt, owner, rb, cpos, cheld, termT, gvtSeen, gvtCnt, gvtVals, finiLp, finiQ, votes,
             stopped, exited, hand, voted, maxDecl, mustVote, announced, net, rx, lastNm, early>>
 mcvars == <<pc, loc, lpst, snap, crem, fneed, rseq, err>>
-vars == <<twvars, mcvars>>
+vars == <<twvars, mcvars, sched>>
 
 LPs == 0..(NLpC - 1)
 \* threads are numbered rank * 8 + rid (as in the traces of the multi-rank harness)
@@ -74,6 +76,7 @@ Init ==
   /\ fneed = [p \in LPs |-> FALSE]
   /\ rseq = [r \in ThreadsC |-> [k \in Ranks |-> 0]]
   /\ err = <<>>
+  /\ sched = <<>>
 
 \* process_lp_init: the LP_INIT handler runs first and schedules the initial events of the LP (recorded in its
 \* history as sent marks), then the LP_INIT message itself becomes a history entry and the first checkpoint is taken
@@ -410,9 +413,21 @@ StepOf(r) ==
   \/ CkptStep(r) \/ FossilStep(r) \/ FossilFree(r) \/ RecvStep(r) \/ RxAlloc(r) \/ RxPush(r) \/ RAntiStep(r) \/ EMatchStep(r) \/ Free2Step(r) \/ RbAnti(r)
 Idle(r) == pc[r] = "idle" /\ TW!InboxOf(r) = {} /\ TW!HeapOf(r) = {} /\ Receivable(r) = {}
 Private == {r \in ThreadsC : ~IsShared(r) /\ ~Idle(r) /\ ENABLED StepOf(r)}
+\* the kind of shared access a step of r performs ("" for a private step): the vocabulary of the observation points of the code
+KindOf(r) ==
+  CASE pc[r] = "push" -> IF Remote(r, Head(loc[r].sends).lp) THEN "NetSend" ELSE "Push"
+    [] pc[r] \in {"rbins", "rxpush"} -> "Push"
+    [] pc[r] = "flag" -> "Flag"
+    [] pc[r] = "idle" /\ pc'[r] = "pop" -> "Drain"
+    [] pc[r] = "idle" /\ pc'[r] = "rxalloc" -> "NetRecv"
+    [] pc[r] = "rbloop" /\ loc[r].i <= Len(hist[loc[r].lp]) ->
+         (LET e == hist[loc[r].lp][loc[r].i] IN IF e.k = "r" THEN "NetSend" ELSE IF e.k = "s" THEN "AntiLocal" ELSE "Undo")
+    [] OTHER -> ""
+Record(r) == sched' = IF RecordSched /\ KindOf(r) # "" THEN Append(sched, <<r, KindOf(r)>>) ELSE sched
 Next ==
   /\ err = <<>>
-  /\ IF Private # {} THEN StepOf(TW!Min(Private)) ELSE \E r \in ThreadsC : StepOf(r) \/ GvtTick(r)
+  /\ IF Private # {} THEN StepOf(TW!Min(Private)) /\ Record(TW!Min(Private))
+                     ELSE \E r \in ThreadsC : (StepOf(r) \/ GvtTick(r)) /\ Record(r)
 Spec == Init /\ [][Next]_vars
 
 (* ---------------- properties ---------------- *)
@@ -437,6 +452,8 @@ C06_NothingLeft == Quiescent => /\ \A m \in DOMAIN msg : \/ TW!InHistE(m) /\ ~TW
 C02_RemoteExactlyOnce ==
   Quiescent => /\ \A m \in DOMAIN msg : IsRemoteMark(m) => Cardinality({x \in DOMAIN msg : TW!FromNet(x) /\ TW!SameRemote(m, x)}) = 1
                /\ \A x \in DOMAIN msg : TW!FromNet(x) => Cardinality({m \in DOMAIN msg : IsRemoteMark(m) /\ TW!SameRemote(m, x)}) = 1
+\* behaviours for replay: at quiescence the order of the shared accesses is printed (always TRUE)
+EmitSched == (RecordSched /\ Quiescent) => PrintT(<<"SCHED", ToJson(sched)>>)
 \* reachability probes (expected to be VIOLATED: used to show that a scenario is reachable in a configuration)
 Probe_NoRemoteAntiRollback == \A r \in ThreadsC : ~(pc[r] = "rbbegin" /\ loc[r].after = "free2")
 Probe_NoRemoteAntiAfterProcessing == \A r \in ThreadsC : pc[r] = "ranti" => ~\E i \in 1..Len(hist[loc[r].lp]) : hist[loc[r].lp][i].k = "e" /\ msg[hist[loc[r].lp][i].m].t = msg[loc[r].m].t
